@@ -16,6 +16,10 @@ Inductive pop :=
 | PMAssign (i j : nat)           (* operator=(unique_ptr &&): swap    :35 *)
 | PReset (i : nat)               (* reset(nullptr)                    :63 *)
 | PResetNew (i : nat) (v : N)    (* reset(p), p a fresh object allocated by the caller *)
+| PResetNewRe (i : nat) (v : N)  (* reset(p) while the old pointee is RE-ENTRANT: its destructor calls reset(nullptr) on
+                                   this same unique_ptr.  reset stores the new pointer first and destroys the old object
+                                   afterwards (unique.hpp:63-71), so the nested reset sees the NEW pointer: it destroys and
+                                   frees the new object, then the old object's destruction completes *)
 | PRelease (i : nat)             (* release(); the caller then reads, destroys and frees the object *)
 | PGet (i : nat) | PBoolOp (i : nat) | PDeref (i : nat)
 | PDel (i : nat).                (* ~unique_ptr()                     :22 *)
@@ -64,6 +68,17 @@ Definition pstep (esize : N) (s : pstate) (o : pop) : pstate * out * list ev :=
       | Some b => (mk_ps (wr vs i (Live (mk_uptr (Some nb)))) (heap_del h1 b) (S nb), RUnit,
                    [EAlloc nb esize; EConstruct (nb, 0)] ++ drop_evs b)
       | None => (mk_ps (wr vs i (Live (mk_uptr (Some nb)))) h1 (S nb), RUnit,
+                 [EAlloc nb esize; EConstruct (nb, 0)])
+      end
+    | None => pskip s end
+  | PResetNewRe i v =>
+    match live_at vs i with
+    | Some a =>
+      let nb := pnext s in
+      match ptr a with
+      | Some b => (mk_ps (wr vs i (Live (mk_uptr None))) (heap_del (heap s) b) (S nb), RUnit,
+                   [EAlloc nb esize; EConstruct (nb, 0)] ++ drop_evs nb ++ drop_evs b)
+      | None => (mk_ps (wr vs i (Live (mk_uptr (Some nb)))) ((nb, v) :: heap s) (S nb), RUnit,
                  [EAlloc nb esize; EConstruct (nb, 0)])
       end
     | None => pskip s end
